@@ -27,7 +27,12 @@ package catchup
 //
 // Op grammar:   case base=<ledger round at start> n=<rounds on the network> lb=<seedLookback> par=<CatchupParallelBlocks>
 //                    mode=<CatchupBlockValidateMode> peers=<p> ss=<schedule seed> [x=<r>[,<r>…]] <r>=<kind>.<delay>[,<kind>.<delay>…] …
-// the last script entry of a round is sticky.  Result line:  exit=<class> hooked=<0|1> | ev ; ev ; …
+// the last script entry of a round is sticky.  Result line:  exit=<class> writes=<n> last=<round> | ev ; ev ; …
+//
+//               cert base=<ledger round> peers=<p> ss=<seed> <base+1>=<script>
+// runs the REAL Service.fetchRound (the syncCert path: the agreement service holds a valid certificate for round base+1
+// but not the block) against the same peers; the write is EnsureBlock(block, agreement's certificate).  No model for
+// this path: the python monitor alone checks that only a block with the certified digest and a matching payset is written.
 
 import (
 	"context"
@@ -125,6 +130,9 @@ type verifC30World struct {
 	reqMu   sync.Mutex
 	reqs    map[basics.Round]int
 }
+
+// a case normally takes a few milliseconds; a case that does not return within the watchdog is reported as HANG
+const verifC30Watchdog = 15 * time.Second
 
 var verifC30GenesisHash = crypto.Hash([]byte("verif-c30-genesis"))
 
@@ -574,7 +582,7 @@ func verifC30ExitClass(err error) string {
 
 func verifC30Exec(op string, log logging.Logger) string {
 	f := strings.Fields(op)
-	if len(f) == 0 || f[0] != "case" {
+	if len(f) == 0 || (f[0] != "case" && f[0] != "cert") {
 		return "bad-op"
 	}
 	w := &verifC30World{tr: &verifC30Trace{}, script: map[basics.Round][]verifC30Resp{}, good: map[basics.Round]bookkeeping.Block{},
@@ -620,6 +628,9 @@ func verifC30Exec(op string, log logging.Logger) string {
 		}
 	}
 	w.build()
+	if f[0] == "cert" {
+		return verifC30ExecCert(w, npeers, log)
+	}
 
 	led := &verifC30Ledger{w: w, last: w.base, hdrs: map[basics.Round]bookkeeping.Block{w.base: w.good[w.base]}, chans: map[basics.Round]chan struct{}{}}
 	net := &verifC30Net{}
@@ -673,12 +684,45 @@ func verifC30Exec(op string, log logging.Logger) string {
 			exit = "PANIC"
 			w.tr.add("panic %s", strings.ReplaceAll(err.Error(), ";", ","))
 		}
-	case <-time.After(60 * time.Second):
+	case <-time.After(verifC30Watchdog):
 		exit = "HANG"
 	}
 	s.cancel()
 	extWG.Wait()
 	_ = hooked
+	w.tr.mu.Lock()
+	evs := append([]string{}, w.tr.ev...)
+	w.tr.mu.Unlock()
+	return fmt.Sprintf("exit=%s writes=%d last=%d | %s", exit, led.writes, led.LastRound(), strings.Join(evs, " ; "))
+}
+
+// verifC30ExecCert: Service.fetchRound with the good certificate of round base+1.
+func verifC30ExecCert(w *verifC30World, npeers int, log logging.Logger) string {
+	r := w.base + 1
+	w.n = 1
+	led := &verifC30Ledger{w: w, last: w.base, hdrs: map[basics.Round]bookkeeping.Block{w.base: w.good[w.base]}, chans: map[basics.Round]chan struct{}{}}
+	net := &verifC30Net{}
+	for i := 0; i < npeers; i++ {
+		net.peers = append(net.peers, &verifC30Peer{w: w, name: fmt.Sprintf("verif-peer-%d", i)})
+	}
+	s := MakeService(log, config.GetDefaultLocal(), net, led, &verifC30Auth{w: w, k: map[basics.Round]int{}}, nil, nil)
+	s.testStart()
+	done := make(chan string, 1)
+	go func() {
+		done <- vh.Catch(func() string { s.fetchRound(w.mkCert(r, w.good[r].Digest()), nil); return "returned" })
+	}()
+	var exit string
+	select {
+	case res := <-done:
+		exit = res
+		if strings.HasPrefix(res, "PANIC") {
+			exit = "PANIC"
+			w.tr.add("panic %s", strings.ReplaceAll(res, ";", ","))
+		}
+	case <-time.After(verifC30Watchdog):
+		exit = "HANG"
+	}
+	s.cancel()
 	w.tr.mu.Lock()
 	evs := append([]string{}, w.tr.ev...)
 	w.tr.mu.Unlock()
@@ -772,6 +816,20 @@ func verifC30Generate() []string {
 		}
 		ops = append(ops, verifC30Case(base, n, uint64(1+i%3), uint64(1+i%5), []int{0, 0, 1, 2}[i%4], 2, rng.U64()%100000, ext, sc))
 	}
+	// --- the syncCert path (fetchRound / EnsureBlock): every bad pair kind, then mixes; always ends with the good pair
+	certKinds := append(append([]string{}, verifC30BadPairs...), "prevblk", "nextblk", "nextcert", "garbage", "errmsg", "noblock", "neterr")
+	for i, k := range certKinds {
+		ops = append(ops, fmt.Sprintf("cert base=%d peers=%d ss=%d %d=%s.%d,good.0", 1+i, 1+i%3, rng.U64()%100000, 2+i, k, i%2))
+	}
+	for i := 0; i < vh.Budget(25, 400); i++ {
+		base := rng.Intn(50)
+		var sc []string
+		for len(sc) < 5 && rng.Chance(70) {
+			sc = append(sc, fmt.Sprintf("%s.%d", certKinds[rng.Intn(len(certKinds))], rng.Intn(3)))
+		}
+		sc = append(sc, "good.0")
+		ops = append(ops, fmt.Sprintf("cert base=%d peers=%d ss=%d %d=%s", base, 1+rng.Intn(3), rng.U64()%100000, base+1, strings.Join(sc, ",")))
+	}
 	// --- random
 	nrand := vh.Budget(260, 6000)
 	for c := 0; c < nrand; c++ {
@@ -818,32 +876,6 @@ func verifC30Generate() []string {
 		ops = append(ops, verifC30Case(base, n, lb, par, mode, 1+rng.Intn(4), rng.U64()%1000000, ext, sc))
 	}
 	return ops
-}
-
-type verifC30Null struct{}
-
-func (verifC30Null) Write(p []byte) (int, error) { return len(p), nil }
-
-func TestVerifC30(t *testing.T) {
-	logging.Base().SetOutput(verifC30Null{})
-	log := logging.NewLogger()
-	log.SetOutput(io.Discard)
-	log.SetLevel(logging.Error)
-	ops, replay := vh.ReplayOps()
-	if !replay {
-		ops = verifC30Generate()
-	}
-	reps := 1
-	if s, err := strconv.Atoi(os.Getenv("VERIF_C30_REPEAT")); err == nil && s > 1 {
-		reps = s // replays re-run every case several times: the goroutine schedule is not part of the op line
-	}
-	out := vh.Open("c30")
-	defer out.Close()
-	for _, op := range ops {
-		for i := 0; i < reps; i++ {
-			out.Emit(op, verifC30Exec(op, log))
-		}
-	}
 }
 
 // ---------------------------------------------------------------------------------------------- tie F: facts of the current tree
@@ -927,5 +959,37 @@ func TestVerifC30Facts(t *testing.T) {
 	}
 	if err := os.WriteFile(filepath.Join(dir, "c30.facts"), []byte(sb.String()), 0o644); err != nil {
 		t.Fatal(err)
+	}
+}
+
+type verifC30Null struct{}
+
+func (verifC30Null) Write(p []byte) (int, error) { return len(p), nil }
+
+func TestVerifC30(t *testing.T) {
+	logging.Base().SetOutput(verifC30Null{})
+	log := logging.NewLogger()
+	log.SetOutput(io.Discard)
+	log.SetLevel(logging.Error)
+	ops, replay := vh.ReplayOps()
+	if !replay {
+		ops = verifC30Generate()
+	}
+	reps := 1
+	if s, err := strconv.Atoi(os.Getenv("VERIF_C30_REPEAT")); err == nil && s > 1 {
+		reps = s // replays re-run every case several times: the goroutine schedule is not part of the op line
+	}
+	out := vh.Open("c30")
+	defer out.Close()
+	hangs := 0
+	for _, op := range ops {
+		for i := 0; i < reps && hangs < 3; i++ {
+			res := verifC30Exec(op, log)
+			if strings.HasPrefix(res, "exit=HANG") {
+				hangs++
+			}
+			out.Emit(op, res)
+			out.Flush()
+		}
 	}
 }
